@@ -128,11 +128,16 @@ impl<'a> ZodSchemaBuilder<'a> {
 
         let mut result = schema.to_string();
 
+        // email(message = "..") / url(message = "..") carry their message in custom_message
+        let format_message = match &val.custom_message {
+            Some(msg) => format!("{{ message: \"{}\" }}", escape_js_string(msg)),
+            None => String::new(),
+        };
         if val.email {
-            result.push_str(".email()");
+            result.push_str(&format!(".email({})", format_message));
         }
         if val.url {
-            result.push_str(".url()");
+            result.push_str(&format!(".url({})", format_message));
         }
 
         result = self.apply_length_validator(&result, validator, skip_validation);
